@@ -295,6 +295,8 @@ def run(case):
         one("width", "int", "weights_superset", {"solution_weights_superset": pool}, pool=pool)
         pool2 = [F + 2, F + 2]
         one("width", "int", "weights_superset_heavy", {"solution_weights_superset": pool2}, pool=pool2)
+        # given weights (some slots stay empty) together with path length ranges that do not contain the length 0 of an empty slot
+        one("width", "int", "weights_superset+length_ranges", {"solution_weights_superset": pool, "path_length_ranges": [[1, 4], [5, 9]], "path_length_factors": [1, 1]}, pool=pool)
     return _ret(viol, nt, tags)
 
 
